@@ -652,6 +652,238 @@ theorem obtainGraph_noForeign (gt : GType) (p : Parsed) (e : Option CG) (fuel : 
     · exact NoForeign.pure _
     · exact valueError_noForeign
 
+/-! ### the class of the object that is built -/
+/-- every value the computation can return satisfies `Q` -/
+def Returns {α} (Q : α → Prop) (x : RM α) : Prop := ∀ ds a rest, x ds = .ok a rest → Q a
+
+theorem Returns.pure {α} {Q : α → Prop} (a : α) (h : Q a) : Returns Q (pure a : RM α) := by
+  intro ds b rest hb; rw [pure_ok] at hb; exact hb.1 ▸ h
+
+theorem Returns.raise {α} {Q : α → Prop} (e : Err) : Returns Q (RM.raise e : RM α) := by
+  intro ds b rest hb; exact absurd hb (raise_ne_ok _ _ _ _)
+
+theorem Returns.bind {α β} {Q : β → Prop} {x : RM α} {f : α → RM β} (hf : ∀ a, Returns Q (f a)) :
+    Returns Q (x >>= f) := by
+  intro ds b rest hb
+  rw [bind_ok] at hb
+  obtain ⟨a, mid, _, hb⟩ := hb
+  exact hf a mid b rest hb
+
+theorem Returns.ite {α} {Q : α → Prop} {c : Prop} [Decidable c] {x y : RM α} (hx : Returns Q x) (hy : Returns Q y) :
+    Returns Q (if c then x else y) := by
+  split <;> assumption
+
+theorem Returns.stuck {α} {Q : α → Prop} : Returns Q (fun _ => (.stuck : Out α)) := by
+  intro ds b rest hb; simp at hb
+
+theorem Returns.foreign {α} {Q : α → Prop} : Returns Q (fun _ => (.foreign : Out α)) := by
+  intro ds b rest hb; simp at hb
+
+/-- the graph classes of a graph type (`CompleteBipartiteGraph` is a `BipartiteGraph`) -/
+def kindOK : GType → CG → Prop
+  | .simple, .simple _ => True
+  | .dag, .dag _ => True
+  | .bipartite, .bip _ => True
+  | .bipartite, .cbip _ _ => True
+  | _, _ => False
+
+theorem ext_returns (e : Option CG) (he : ∀ g, e = some g → kindOK .simple g) :
+    Returns (kindOK .simple) (ext e) := by
+  intro ds g rest h
+  unfold ext at h
+  split at h
+  · rename_i g' ; simp only [Out.ok.injEq] at h; exact h.1 ▸ he g' rfl
+  · simp at h
+
+theorem valueError_returns {α} {Q : α → Prop} : Returns Q (valueError : RM α) := Returns.raise _
+
+/-- every construction returns an object of the class of its graph type (third-party results
+are assumed to be `Graph` objects: that is what `Graph.from_networkx` / `normalize` return) -/
+theorem construct_kind (c : Cons) (args : List Arg) (e : Option CG) (fuel : Nat)
+    (he : ∀ g, e = some g → kindOK .simple g) : Returns (kindOK c.gtype) (construct c args e fuel) := by
+  have hext := ext_returns e he
+  cases c <;> simp only [construct, Cons.gtype]
+  case gnp =>
+    have hgo : ∀ a p t?, Returns (kindOK .simple) (obtainGnpGo e a p t?) := by
+      intro a p t?
+      unfold obtainGnpGo
+      refine Returns.bind (fun n => ?_)
+      split
+      · split
+        · exact Returns.bind (fun _ => valueError_returns)
+        · exact valueError_returns
+      · exact Returns.bind (fun t => Returns.bind (fun _ => Returns.ite hext
+          (Returns.bind (fun G => Returns.pure _ trivial))))
+    unfold obtainGnp; split
+    · exact hgo _ _ _
+    · exact hgo _ _ _
+    · exact valueError_returns
+  case gnm =>
+    unfold obtainGnm; split
+    · exact Returns.bind (fun _ => Returns.bind (fun _ => Returns.bind (fun _ => hext)))
+    · exact valueError_returns
+  case gnd =>
+    unfold obtainGnd; split
+    · exact Returns.bind (fun _ => Returns.bind (fun _ => Returns.bind (fun _ =>
+        Returns.ite valueError_returns (Returns.ite Returns.foreign hext))))
+    · exact valueError_returns
+  case grid =>
+    unfold obtainGridOrTorus
+    exact Returns.bind (fun _ => Returns.bind (fun _ => Returns.ite valueError_returns hext))
+  case torus =>
+    unfold obtainGridOrTorus
+    exact Returns.bind (fun _ => Returns.bind (fun _ => Returns.ite valueError_returns hext))
+  case completeS =>
+    unfold obtainCompleteSimple; split
+    · exact Returns.bind (fun _ => Returns.bind (fun _ => Returns.bind (fun _ => Returns.pure _ trivial)))
+    · exact Returns.bind (fun _ => Returns.bind (fun _ => Returns.bind (fun _ => hext)))
+    · exact valueError_returns
+  case emptyS =>
+    unfold obtainEmptySimple; split
+    · exact Returns.bind (fun _ => Returns.bind (fun _ => Returns.bind (fun _ => Returns.pure _ trivial)))
+    · exact valueError_returns
+  case path =>
+    unfold obtainPath; split
+    · exact Returns.bind (fun _ => Returns.bind (fun _ => Returns.bind (fun _ => Returns.pure _ trivial)))
+    · exact valueError_returns
+  case tree =>
+    unfold obtainTree; split
+    · exact Returns.bind (fun _ => Returns.bind (fun _ => Returns.bind (fun _ => Returns.pure _ trivial)))
+    · exact valueError_returns
+  case pyramid =>
+    unfold obtainPyramid; split
+    · exact Returns.bind (fun _ => Returns.bind (fun _ => Returns.bind (fun _ => Returns.pure _ trivial)))
+    · exact valueError_returns
+  case glrp =>
+    unfold obtainGlrp; split
+    · refine Returns.bind (fun _ => Returns.bind (fun _ => ?_))
+      split
+      · exact valueError_returns
+      · exact Returns.bind (fun _ => Returns.bind (fun _ => Returns.pure _ trivial))
+    · exact valueError_returns
+  case glrm =>
+    unfold obtainGlrm; split
+    · exact Returns.bind (fun _ => Returns.bind (fun _ => Returns.bind (fun _ => Returns.bind (fun _ =>
+        Returns.bind (fun _ => Returns.pure _ trivial)))))
+    · exact valueError_returns
+  case glrd =>
+    unfold obtainGlrd; split
+    · exact Returns.bind (fun _ => Returns.bind (fun _ => Returns.bind (fun _ => Returns.bind (fun _ =>
+        Returns.bind (fun _ => Returns.pure _ trivial)))))
+    · exact valueError_returns
+  case regular =>
+    unfold obtainRegular; split
+    · exact Returns.bind (fun _ => Returns.bind (fun _ => Returns.bind (fun _ => Returns.bind (fun _ =>
+        Returns.bind (fun _ => Returns.pure _ trivial)))))
+    · exact valueError_returns
+  case shift =>
+    unfold obtainShift; split
+    · exact Returns.bind (fun _ => Returns.bind (fun _ => Returns.bind (fun _ => Returns.bind (fun _ =>
+        Returns.bind (fun _ => Returns.pure _ trivial)))))
+    · exact valueError_returns
+  case completeB =>
+    unfold obtainCompleteBip; split
+    · exact Returns.bind (fun _ => Returns.bind (fun _ => Returns.bind (fun _ => Returns.pure _ trivial)))
+    · exact valueError_returns
+  case emptyB =>
+    unfold obtainEmptyBip; split
+    · exact Returns.bind (fun _ => Returns.bind (fun _ => Returns.bind (fun _ => Returns.pure _ trivial)))
+    · exact valueError_returns
+
+theorem modifyPlantclique_kind (opt : List Arg) (G : CG) (t : GType) (hk : kindOK t G) :
+    Returns (kindOK t) (modifyPlantclique opt G) := by
+  unfold modifyPlantclique; split
+  · refine Returns.bind (fun _ => Returns.bind (fun _ => ?_))
+    split
+    · exact Returns.bind (fun _ => Returns.pure _ (by cases t <;> simp_all [kindOK]))
+    · exact Returns.stuck
+  · exact valueError_returns
+
+theorem modifyPlantbiclique_kind (opt : List Arg) (G : CG) (t : GType) (hk : kindOK t G) :
+    Returns (kindOK t) (modifyPlantbiclique opt G) := by
+  unfold modifyPlantbiclique; split
+  · refine Returns.bind (fun _ => Returns.bind (fun _ => Returns.bind (fun _ => ?_)))
+    split
+    · exact Returns.bind (fun _ => Returns.pure _ (by cases t <;> simp_all [kindOK]))
+    · exact Returns.bind (fun _ => Returns.pure _ (by cases t <;> simp_all [kindOK]))
+    · exact Returns.stuck
+  · exact valueError_returns
+
+theorem modifyAddedges_kind (opt : List Arg) (G : CG) (t : GType) (hk : kindOK t G) :
+    Returns (kindOK t) (modifyAddedges opt G) := by
+  unfold modifyAddedges; split
+  · refine Returns.bind (fun _ => Returns.bind (fun _ => ?_))
+    split
+    · exact Returns.bind (fun _ => Returns.pure _ (by cases t <;> simp_all [kindOK]))
+    · exact Returns.bind (fun _ => Returns.pure _ (by cases t <;> simp_all [kindOK]))
+    · exact Returns.bind (fun _ => Returns.pure _ (by cases t <;> simp_all [kindOK]))
+    · exact Returns.stuck
+  · exact valueError_returns
+
+theorem applyOpt_kind (o : Option (List Arg)) (f : List Arg → CG → RM CG) (G : CG) (t : GType)
+    (hk : kindOK t G) (hf : ∀ a, Returns (kindOK t) (f a G)) : Returns (kindOK t) (applyOpt o f G) := by
+  unfold applyOpt; split
+  · exact hf _
+  · exact Returns.pure _ hk
+
+/-- the request comes out of `parse_graph_argument`: the construction belongs to the graph type,
+`splitedges` is an option of simple graphs only, and a third-party generator returns a `Graph` -/
+structure FromParser (gt : GType) (p : Parsed) (e : Option CG) : Prop where
+  cons : p.cons.gtype = gt
+  split : gt ≠ .simple → p.splitedges = none
+  ext : ∀ g, e = some g → kindOK .simple g
+
+/-- for a request that comes out of the parser, `obtain_graph` raises `ValueError`, or — for
+`regular` only — `RecursionError`; nothing else -/
+theorem obtainGraph_only_parsed (gt : GType) (p : Parsed) (e : Option CG) (fuel : Nat)
+    (hp : FromParser gt p e) :
+    Only (fun err => err = .valueError ∨ (p.cons = .regular ∧ err = .recursion)) (obtainGraph gt p e fuel) := by
+  intro ds err h
+  unfold obtainGraph at h
+  rw [bind_exc] at h
+  rcases h with h | ⟨G0, m0, h0, h⟩
+  · exact construct_only _ _ _ _ ds err h
+  have hk0 : kindOK gt G0 := hp.cons ▸ construct_kind _ _ _ _ hp.ext ds G0 m0 h0
+  rw [bind_exc] at h
+  rcases h with h | ⟨G1, m1, h1, h⟩
+  · left
+    cases gt
+    · exact applyOpt_only _ _ _ (fun a => modifyPlantclique_only a G0) _ _ h
+    · exact absurd h (pure_ne_exc _ _ _)
+    · exact applyOpt_only _ _ _ (fun a => modifyPlantbiclique_only a G0) _ _ h
+  have hk1 : kindOK gt G1 := by
+    cases gt
+    · exact applyOpt_kind _ _ _ _ hk0 (fun a => modifyPlantclique_kind a G0 _ hk0) _ _ _ h1
+    · have h1' : (pure G0 : RM CG) m0 = .ok G1 m1 := h1
+      rw [pure_ok] at h1'; exact h1'.1 ▸ hk0
+    · exact applyOpt_kind _ _ _ _ hk0 (fun a => modifyPlantbiclique_kind a G0 _ hk0) _ _ _ h1
+  rw [bind_exc] at h
+  rcases h with h | ⟨G2, m2, h2, h⟩
+  · exact Or.inl (applyOpt_only _ _ _ (fun a => modifyAddedges_only a G1) _ _ h)
+  have hk2 : kindOK gt G2 := applyOpt_kind _ _ _ _ hk1 (fun a => modifyAddedges_kind a G1 _ hk1) _ _ _ h2
+  rw [bind_exc] at h
+  rcases h with h | ⟨G3, m3, _, h⟩
+  · left
+    by_cases hs : gt = .simple
+    · subst hs
+      rcases hsp : p.splitedges with _ | a
+      · rw [hsp] at h; exact absurd h (pure_ne_exc _ _ _)
+      · rw [hsp] at h
+        rcases modifySplitedges_only a G2 _ _ h with he | ⟨_, hns⟩
+        · exact he
+        · exfalso
+          cases G2 <;> simp [kindOK] at hk2
+          exact hns _ rfl
+    · rw [hp.split hs] at h
+      exact absurd h (pure_ne_exc _ _ _)
+  · left
+    rcases hs : p.save with _ | b
+    · simp only [hs] at h; exact absurd h (pure_ne_exc _ _ _)
+    · cases b
+      · simp only [hs] at h; exact valueError_only _ _ h
+      · simp only [hs] at h; exact absurd h (pure_ne_exc _ _ _)
+
+
 /-- T-C15.3: the graph handed to `writeGraph` is the graph that is returned -/
 theorem obtainGraph_save (gt : GType) (p : Parsed) (e : Option CG) (fuel : Nat) (ds rest : List Draw)
     (G : CG) (W : Option CG) (h : obtainGraph gt p e fuel ds = .ok (G, W) rest) :
